@@ -20,7 +20,8 @@ property's *strictly inside* (`StrictlyInside.inRange`), so the theorems cover t
 
 ## Contents
 * generalized: `limit_rows_inactive`, `limit_row_active_above`, `contact_rows_inactive`,
-  `force_zero_of_inactive`, `force_no_rows`, `constraint_force_inert`, `pyramid_push_only`
+  `force_zero_of_inactive`, `force_no_rows`, `constraint_force_inert`, `pyramid_push_only`,
+  `generalized_contact_force`
 * spring: `spring_limit_terms_zero_inside`, `spring_one_dof_limit_inert`, `spring_two_dof_limit_inert`,
   `spring_three_dof_limit_inert`, `spring_contact_separated`, `spring_collide_separated`,
   `spring_push_only`, `spring_rebound_impulse`, `spring_rebound_single_contact`,
@@ -119,6 +120,16 @@ theorem pyramid_push_only (c : GContact K) (x : List K) (hx : ∀ v ∈ x, 0 ≤
     dot_sum_smul c.frame.r0 x (contactDirs c) (contactDirs_dot_normal c hn h1 h2)
       (by rw [hlen]; rfl)
   exact ⟨e, e ▸ list_sum_nonneg x hx⟩
+
+/-- **what `qf_constraint = Jᵀx` is for a penetrating contact**: entry `j` is `diff_j · F` with
+`F = Σ_k x_k·dir_k` the pyramid force of `pyramid_push_only` and `diff_j = b.vel_j − a.vel_j` the
+relative velocity of the two contact points per unit `q̇_j` (second body minus first): the
+generalized force is that of the world force `+F` on the second body and `−F` on the first -/
+theorem generalized_contact_force (invw qd : List K) (diff : List (V3 K)) (c : GContact K)
+    (x0 x1 x2 x3 : K) (hd : c.dist < 0) :
+    jacTx diff.length ((contactRows invw qd diff c).map (·.1)) [x0, x1, x2, x3]
+      = tab diff.length fun j => V3.dot (diff.getD j ⟨0, 0, 0⟩) (pyramidForce c [x0, x1, x2, x3]) :=
+  contact_jacTx invw qd diff c x0 x1 x2 x3 hd
 
 end generalized
 
